@@ -78,7 +78,7 @@ prop('C13',
                  'ring laws are lemmas over the operator specifications.  Truncated polynomials (unit poly): zero, one, + and * against their definitions, generic in the coefficient semiring.  Boolean semiring and the real / expected-utility lattice operations: loop-free Kani harnesses over the whole bit domain.',
      not_covered=[
          'RationalSemiring (external crate `rational`; its field is private, so only values built from one()/zero() are reachable) [bounded check `lattice` only: naturals 0..4]',
-         'the semiring LAWS of truncated polynomials: unit poly proves that zero / one / + / * compute the definition (coefficient-wise sum; truncated convolution in the order the code adds the terms) for any coefficient semiring, not that this definition is associative / distributive (that needs the laws of the coefficient type) [bounded check `poly` only: the laws as == on 403 operand pairs over FiniteField<U32_TINY>]',
+         'truncated polynomials: the laws are proved (unit poly, prelude/polylaws.rs) for polynomials in normal form over ANY coefficient type whose operator specifications form a commutative semiring (hypothesis `csr`; unit ff proves those laws for FiniteField, but the instantiation csr::<FiniteField<P>> is not itself discharged in one unit); the float-based coefficient types are covered only as far as their own laws are (next item)',
          'real +,* beyond integers |x| <= 8 and expected-utility / complex +,* beyond integers |x| <= 4 (domain-bounded Kani harnesses, labelled as such; floating-point addition is not associative in general); the multiplication associativity / distributivity harnesses of the latter two run in the thorough tier only (50-100 s)',
      ])
 
